@@ -13,6 +13,10 @@
 //	CRange  one ranged blob GET on the wire: the Range header the client sent for (o0, o1),
 //	        or a hand-written one, and the status / Content-Range / Content-Length / body the
 //	        server answered.
+//
+// Every reader a history or a scripted read obtains is drained in a way chosen per read
+// (io.ReadAll, small buffers, io.Copy, a Read prefix and io.Copy, CopyN, zero-length Reads,
+// the reader's optional interfaces ...): drain.go.
 package main
 
 import (
@@ -82,12 +86,14 @@ func main() {
 		}
 	}
 	rnd := cfg.Rand()
+	setDrainSeed(cfg.Seed)
 	scale := 1
 	if cfg.Thorough() {
 		scale = 10
 	}
 	genHistories(out, rnd, scale)
 	genDisagree(out, rnd, scale)
+	genDrains(out, rnd, scale)
 	genReads(out, rnd, scale)
 	genRanges(out, rnd, scale)
 	genBig(out, rnd, scale)
